@@ -362,6 +362,31 @@ pub fn conv_layer(x: &T, f: &T, b: &T, sr: usize, sc: usize, a: Act) -> R<T> {
 
 use crate::ir::OpKind;
 /// does any element of a reference tensor violate the in-domain value range of `op`?
+/// the relaxed domain of the wide-magnitude generators: divisors, logarithm arguments and power bases with
+/// magnitude in [lo, hi], arguments of exp-like functions in [-exp_max, exp_max] (conditioning is tracked by the
+/// magnitudes of the dual numbers, results beyond the generator's `max_abs` are filtered by the caller)
+pub fn in_wide_domain(op: &OpKind, operands: &[&T], lo: f64, hi: f64, exp_max: f64) -> bool {
+    use OpKind::*;
+    let rng = |t: &T, lo: f64, hi: f64| t.vals.iter().all(|x| x.v >= lo && x.v <= hi);
+    let absrng = |t: &T, lo: f64, hi: f64| t.vals.iter().all(|x| x.v.abs() >= lo && x.v.abs() <= hi);
+    match op {
+        Div => absrng(operands[1], lo, hi),
+        Recip => absrng(operands[0], lo, hi),
+        Ln => rng(operands[0], lo, hi),
+        Exp | Softmax | Sigmoid | ActSoftmax | ActSigmoid => rng(operands[0], -exp_max, exp_max),
+        Powf(e) => {
+            if *e == e.trunc() && *e >= 1.0 {
+                absrng(operands[0], 0.0, hi.powf(0.25))
+            } else if *e == e.trunc() {
+                absrng(operands[0], lo.powf(0.25), hi.powf(0.25))
+            } else {
+                rng(operands[0], lo.powf(0.25), hi.powf(0.25))
+            }
+        }
+        _ => true,
+    }
+}
+
 pub fn in_domain(op: &OpKind, operands: &[&T]) -> bool {
     use OpKind::*;
     let rng = |t: &T, lo: f64, hi: f64| t.vals.iter().all(|x| x.v >= lo && x.v <= hi);
